@@ -162,6 +162,7 @@ class Interp:
         self.summarised = 0
         self.trips = []         # (guard, trip term) of every counted DO loop
         self.int_divs = []      # (numerator, denominator) of every integer division evaluated
+        self.gcur = None        # guard of the expression being evaluated (for conformance hypotheses)
         self._collect()
 
     # ------------------------------------------------------------ program structure
@@ -747,6 +748,13 @@ class Interp:
         if isinstance(head, F.Nonlabel_Do_Stmt) and head.items[0] is not None \
                 and str(head.items[0]).upper() != "DO":
             cname = lname(head.items[0])
+        if cname is None and hasattr(head, "get_start_name"):
+            try:
+                nm = head.get_start_name()
+            except Exception:  # pylint: disable=broad-except
+                nm = None
+            if nm:
+                cname = lname(nm)
         lc = head.items[-1] if isinstance(head.items[-1], F.Loop_Control) else head.items[1]
         if not isinstance(lc, F.Loop_Control):
             raise Unsupported("do forever")
@@ -926,6 +934,7 @@ class Interp:
                 continue
             if mask is not None:
                 eg = AND(eg, mask.elem(kt))
+            self.gcur = eg
             v = val.elem(kt)
             pending.append((smap(kt), self._conv(v, tname), eg))
         for sidx, v, eg in pending:
@@ -1123,6 +1132,7 @@ class Interp:
         return ArrVal(exts, lambda ks: self.read(key, [simp(i) for i in smap(ks)], g), tname)
 
     def ev(self, node, frame, g):
+        self.gcur = g
         if isinstance(node, F.Int_Literal_Constant):
             return z3.IntVal(int(node.items[0]))
         if isinstance(node, F.Real_Literal_Constant):
@@ -1254,6 +1264,7 @@ class Interp:
                 return x - y
             if op == "*":
                 return x * y
+            self._nonzero(y)
             if x.sort() == I:
                 self.int_divs.append((x, y))
                 return tdiv(x, y)
@@ -1306,6 +1317,7 @@ class Interp:
             return self._lift([ev(args[0]), ev(args[1])], self._mod)
         if up == "MODULO":
             def modulo(x, y):
+                self._nonzero(y)
                 if x.sort() == I and y.sort() == I:
                     return fmodulo(x, y)
                 return uf("modulo_r", R, R, R)(to_real(x), to_real(y))
@@ -1371,7 +1383,19 @@ class Interp:
         aa = ITE(a >= 0, a, -a)
         return ITE(b >= 0, aa, -aa)
 
+    def _nonzero(self, y):
+        """Division by zero is non-conforming: a hypothesis for the original program, an
+        obligation for the transformed one (same list as the subscript bounds)."""
+        yv = simp(y)
+        if z3.is_int_value(yv) or z3.is_rational_value(yv):
+            if not z3.is_true(simp(yv != 0)):
+                raise Unsupported("literal division by zero")
+            return
+        g = getattr(self, "gcur", None)
+        self.inbounds.append(z3.Implies(g, y != 0) if g is not None else y != 0)
+
     def _mod(self, x, y):
+        self._nonzero(y)
         if x.sort() == I and y.sort() == I:
             return tmod(x, y)
         x, y = to_real(x), to_real(y)
